@@ -238,7 +238,7 @@ func (c *Ctx) rewardCountExact(rule string) {
 	if crc == nil {
 		return
 	}
-	gs := findGuards(crc, readsField("protocol/state.Checkpoint", "Rewards"), callsKey("builtin:len"))
+	gs := findGuards(crc, c.fieldOrParam(crc, "protocol/state.Checkpoint", "Rewards"), callsKey("builtin:len"))
 	ok, d := false, "no failing test on len(Checkpoint.Rewards)"
 	for _, g := range gs {
 		if !ok {
@@ -341,4 +341,76 @@ func constPrefix(v ssa.Value, depth int) string {
 		return constPrefix(t.X, depth-1)
 	}
 	return ""
+}
+
+// justifiedSource (C17): the own definition of the status (state/checkpoint.go:
+// "Justified if … there exists a super link c′ → c where c′ is justified") and
+// the property both require the link's source to be justified. Every call that
+// marks a target justified (setJustified(source, target)) must be dominated by
+// a test establishing source.Status == Justified.
+func (c *Ctx) justifiedSource(rule string) {
+	const key = "(*protocol/casper.Casper).setJustified"
+	want := c.constVal(pState, "Justified")
+	n := 0
+	var fns []*ssa.Function
+	for f := range c.allFuncs() {
+		if pkgRelOf(f) == pCasper && len(f.Blocks) > 0 && len(callsTo(f, false, key)) > 0 {
+			fns = append(fns, f)
+		}
+	}
+	sort.Slice(fns, func(i, j int) bool { return fname(fns[i]) < fname(fns[j]) })
+	for _, f := range fns {
+		c.funcsSeen[f] = true
+		ok, d := true, ""
+		for _, s := range callsTo(f, false, key) {
+			n++
+			if len(s.Common().Args) < 2 {
+				continue
+			}
+			q := baseQual(s.Common().Args[1], 0)
+			t := "field:protocol/state.Checkpoint.Status@" + q
+			have := factsAt(s)
+			if !have[t+" == "+want] && !have[want+" == "+t] {
+				ok = false
+				d = "setJustified at " + c.Pos(s.Pos()) + ": no dominating test that the source checkpoint's status is Justified (a link from an unjustified or growing source justifies the target and, for a direct child, finalizes the source)"
+			}
+		}
+		c.Require(rule, fname(topFunc(f))+": a target is marked justified only from a justified source", ok, "%s", d)
+	}
+	if n < 1 {
+		c.Machinef("%s: no call to setJustified found in %s", rule, pCasper)
+	}
+}
+
+// fieldOrParam: a read of typ.field, or a parameter of f that every static
+// caller feeds with (something computed from) such a read — a function that
+// takes the table instead of the struct holding it is the same check.
+func (c *Ctx) fieldOrParam(f *ssa.Function, typ, field string) func(ssa.Value) bool {
+	rf := readsField(typ, field)
+	fed := map[*ssa.Parameter]bool{}
+	if f != nil {
+		callers := c.callersOf(f)
+		for i, p := range f.Params {
+			n, all := 0, true
+			for _, sites := range callers {
+				for _, s := range sites {
+					n++
+					args := s.Common().Args
+					if i >= len(args) || !mentions(args[i], rf, 4, nil) {
+						all = false
+					}
+				}
+			}
+			if n > 0 && all {
+				fed[p] = true
+			}
+		}
+	}
+	return func(v ssa.Value) bool {
+		if rf(v) {
+			return true
+		}
+		p, ok := v.(*ssa.Parameter)
+		return ok && fed[p]
+	}
 }
